@@ -3,7 +3,8 @@ Require Export KV.Codec13.Wf.
 
 (* an IRI that resolve_query_term leaves alone: http(s):// or no colon at all *)
 Definition ttl_iri_ok (s : str) : bool :=
-  wf_iri s && (starts_with sHTTP_ s || starts_with sHTTPS_ s || negb (contains_c cCOLON s)).
+  wf_iri s && (starts_with sHTTP_ s || starts_with sHTTPS_ s || negb (contains_c cCOLON s))
+  && negb (contains_c cLBRACE s).        (* `{|` after the object starts an annotation *)
 (* a plain literal whose value resolve_query_term leaves alone *)
 Definition ttl_value_ok (v : str) : bool :=
   negb (starts_with_c cLT v) && negb (starts_with_c cDQ v) && negb (contains_c cCOLON v).
@@ -15,7 +16,12 @@ Definition wf_term_ttl (t : term) : bool :=
   | TPname p l => forallb name_char p && forallb name_char l
                   && negb (starts_with sHTTP_ (p ++ cCOLON :: l)) && negb (starts_with sHTTPS_ (p ++ cCOLON :: l))
                   && negb (starts_with sPREFIX_UP_ (p ++ cCOLON :: l))
-  | TLit b SNone => forallb wf_lchar b && ttl_value_ok (lit_value b)
+  | TLit b x => forallb wf_lchar b && ttl_value_ok (lit_value b) &&
+                match x with
+                | SNone => true
+                | SLang tag => forallb tag_char tag
+                | SDt iri => wf_iri iri && negb (contains_c cLBRACE iri)
+                end
   | _ => false
   end.
 Definition is_lit (t : term) : bool := match t with TLit _ _ => true | _ => false end.
